@@ -124,4 +124,29 @@ CHECKS = {
         rule="random bulks; failure probability per element 0/10/30/60 %, unknown-action probability 0/10/30 %; distinct_nontrivial = distinct (body, continueOnFailure)",
         assumptions=["monitoring backend", "scripted failures stand in for engine failures"],
     ),
+    "C17": dict(
+        claim="Exploration with a small exhaustive grid: the real bunpaginate.UsingColumn / UsingOffset and the real v1/v2 list handlers (through Store.GetTransactions / GetLogs / GetAccountsWithVolumes) run on a database/sql driver that evaluates only the pagination tail (last id comparison, ORDER BY, LIMIT, OFFSET) over an in-memory relation with unique ids. Every walk goes forward until hasMore is false (must enumerate the relation exactly once, in order), then checks previous of every page, a chained backward walk from the last page and next-after-previous; every token is decoded by the real code (HTTP ?cursor=) and the statement behind each page must equal the first page's statement up to the pagination tail (filters survive). Grid sizes 0..40 x page sizes {1,2,3,5,7,15,n,n+1} x both orders x both paginators is enumerated completely.",
+        note="Trusted: the driver's evaluation of < <= > >=, ORDER BY, LIMIT, OFFSET on integers (sqlmon/c17.go parseTail); the rest of each statement is an opaque relation, PostgreSQL's evaluation of the filters is not exercised.",
+        technique="runtime oracle over complete cursor walks on a pagination-simulating SQL driver; exhaustive small grid + randomized sizes, id gaps, >64-bit ids, filters",
+        engine="sqlmon", level="exploration",
+        runs=[dict(mode="", shards={"quick": 2, "thorough": 16}, timeout=T)],
+        thresholds={"quick": {"grid_walks": 900, "walks": 1400, "http_walks": 200, "http_walks_with_filter": 100, "previous_hops": 5000, "walks_with_3plus_pages": 500},
+                    "thorough": {"walks": 25000, "http_walks": 10000, "http_walks_with_filter": 5000}},
+        rule="walk = (level, collection size, page size, order, id style, filter); levels: bunpaginate.UsingColumn, bunpaginate.UsingOffset, HTTP v2/v1 transactions, logs, accounts with "
+             "and without filter expressions; distinct_nontrivial = distinct walk descriptions that completed",
+        assumptions=["simulating driver (pagination tail only)", "rows with unique integer ids"],
+        exhaustive_counter="grid_walks", exhaustive_note="sizes 0..40 x page sizes {1,2,3,5,7,15,n,n+1} x {asc,desc column, offset} enumerated completely (shard 0)",
+    ),
+    "C20": dict(
+        claim="Exploration at the driver boundary: every filter key x operator of the account, transaction, aggregated-balance and log listings (v1 query parameters and v2 query bodies, list and count) is sent through the real handlers and the real ledgerstore query builders onto a recording database/sql driver under bun+pgdialect (bun interpolates arguments client-side, so the recorded text is what PostgreSQL would parse). For a hostile value (quotes, backslashes, comment markers, ;, ?, $$, NUL, non-ASCII, jsonpath/JSON specials; alone and embedded in address shapes; also in metadata keys and asset names) the statement's token skeleton must equal the skeleton for a harmless value of the same shape and the client's text must not appear outside string-literal tokens - unless the request was refused before any statement was sent.",
+        note="Trusted: the PostgreSQL lexer re-implementation (sqlmon/sqllex.go, standard_conforming_strings=on) and bun's literal quoting. Structure inside a jsonpath / JSON literal is not judged (the statement only demands quoted literal or bound parameter).",
+        technique="differential SQL-skeleton monitor on a recording driver (hostile vs benign value of the same shape), generated filter requests through the real handlers",
+        engine="sqlmon", level="exploration",
+        runs=[dict(mode="", shards={"quick": 2, "thorough": 16}, timeout=T)],
+        thresholds={"quick": {"evaluations": 6000, "statements_compared": 4000, "pairs_with_baseline_statement": 30, "rejected_before_sql": 50},
+                    "thorough": {"evaluations": 300000, "statements_compared": 200000}},
+        rule="case = (endpoint, key, operator, position of the hostile text: value / metadata key / asset / operator, hostile string or random composition of special characters); "
+             "each case issues the benign twin first; distinct_nontrivial = distinct hostile requests that produced a statement",
+        assumptions=["lexer", "bun interpolates client-side (verified: the driver receives no bound arguments for these queries)"],
+    ),
 }
